@@ -41,7 +41,7 @@ def op_term(o):
         "tnewsh": ("OTNewShared", "N"), "trel": ("OTRelease", "N"),
         "scopy": ("OSCopy", "NN"), "smove": ("OSMove", "NN"), "sasg": ("OSAssign", "NN"), "smasg": ("OSMoveAssign", "NN"),
         "scall": ("OSCall", "NNB"), "sblock": ("OSBlock", "NB"), "sdisc": ("OSDisc", "N"), "sdel": ("OSDel", "N"), "sq": ("OSQuery", "N"),
-        "gcopy": ("OGCopy", "NN"), "gmove": ("OGMove", "NN"), "gasg": ("OGAssign", "NN"), "gmasg": ("OGMoveAssign", "NN"), "gdel": ("OGDel", "N"),
+        "gcopy": ("OGCopy", "NN"), "gmove": ("OGMove", "NN"), "gasg": ("OGAssign", "NN"), "gmasg": ("OGMoveAssign", "NN"), "gdel": ("OGDel", "N"), "gshare": ("OGShare", "N"), "grel": ("OGRelease", "N"),
         "gemit": ("OGEmit", "NNB"), "gclear": ("OGClear", "N"), "gblock": ("OGBlock", "NB"), "gq": ("OGQuery", "N"), "gmk": ("OGMakeSlot", "NN"),
         "cempty": ("OCEmpty", "N"), "ccopy": ("OCCopy", "NN"), "casg": ("OCAssign", "NN"), "cmove": ("OCCopy", "NN"), "cmasg": ("OCAssign", "NN"), "knewm": ("OKNew", "NN"), "kasgm": ("OKAssign", "NN"), "cdisc": ("OCDisc", "N"), "cblock": ("OCBlock", "NB"),
         "cdel": ("OCDel", "N"), "cq": ("OCQuery", "N"),
